@@ -232,7 +232,54 @@ func writeSites(repo, out string) error {
 						walkStmt(s, next)
 					}
 				}
+				// tailAssigns: writer calls whose error lands in a variable as the LAST thing the statement does
+				// on some path (an assignment; the ends of the branches of an if/else or switch)
+				type pend struct {
+					c    *ast.CallExpr
+					name string
+				}
+				var tailAssigns func(s ast.Stmt) []pend
+				tailOf := func(list []ast.Stmt) []pend {
+					if len(list) == 0 {
+						return nil
+					}
+					return tailAssigns(list[len(list)-1])
+				}
+				tailAssigns = func(s ast.Stmt) []pend {
+					switch st := s.(type) {
+					case *ast.AssignStmt:
+						if len(st.Rhs) == 1 {
+							if c, ok := st.Rhs[0].(*ast.CallExpr); ok && usesWriter(c, ws) {
+								return []pend{{c, lastLHSName(st)}}
+							}
+						}
+					case *ast.BlockStmt:
+						return tailOf(st.List)
+					case *ast.IfStmt:
+						out := tailOf(st.Body.List)
+						if st.Else != nil {
+							out = append(out, tailAssigns(st.Else)...)
+						}
+						return out
+					case *ast.SwitchStmt:
+						var out []pend
+						for _, cc := range st.Body.List {
+							out = append(out, tailOf(cc.(*ast.CaseClause).Body)...)
+						}
+						return out
+					}
+					return nil
+				}
 				walkStmt = func(s ast.Stmt, next ast.Stmt) {
+					if ifs, ok := next.(*ast.IfStmt); ok && ifs.Init == nil {
+						if name, ok := isErrNotNil(ifs.Cond); ok && bodyReturns(ifs.Body) && name != "_" {
+							for _, p := range tailAssigns(s) {
+								if p.name == name {
+									checked[p.c] = true
+								}
+							}
+						}
+					}
 					switch st := s.(type) {
 					case *ast.IfStmt:
 						if as, ok := st.Init.(*ast.AssignStmt); ok && len(as.Rhs) == 1 {
@@ -510,7 +557,12 @@ func schedule(repo, out string) error {
 			case *ast.ExprStmt:
 				if c, ok := st.X.(*ast.CallExpr); ok {
 					if isInvoke(c) {
-						_, addr := c.Args[2].(*ast.UnaryExpr)
+						// the address of a plain variable (a loop copy, a by-value parameter) is not the live object;
+						// the address of a slice element or field is
+						addr := false
+						if u, ok := c.Args[2].(*ast.UnaryExpr); ok && u.Op == token.AND {
+							_, addr = u.X.(*ast.Ident)
+						}
 						calls = append(calls, call{label, depth, guard, fieldOf(c.Args[0]), src(c.Args[1]), src(c.Args[2]), addr})
 					}
 					if s, ok := c.Fun.(*ast.SelectorExpr); ok && rowTraversal != "" && s.Sel.Name == rowTraversal {
@@ -568,6 +620,7 @@ func globals(repo, out string) error {
 		}
 		rel, _ := filepath.Rel(repo, dir)
 		names := map[string]*gv{}
+		concurrencySafe := map[string]bool{}
 		pkgObjs := map[*ast.Object]bool{}
 		var order []string
 		for _, f := range files {
@@ -584,12 +637,46 @@ func globals(repo, out string) error {
 						}
 						names[n.Name] = &gv{pkg: rel, name: n.Name}
 						order = append(order, n.Name)
+						// values documented as safe for concurrent use by multiple goroutines: calling their
+						// methods is not a mutation of shared state
+						for i, v := range vs.Values {
+							if i < len(vs.Names) && vs.Names[i] == n {
+								if c, ok := v.(*ast.CallExpr); ok {
+									switch src(c.Fun) {
+									case "strings.NewReplacer", "regexp.MustCompile", "regexp.MustCompilePOSIX":
+										concurrencySafe[n.Name] = true
+									}
+								}
+							}
+						}
 						if n.Obj != nil {
 							pkgObjs[n.Obj] = true
 						}
 					}
 				}
 			}
+		}
+		// self-locking methods: every use of the receiver (other than as the receiver of Lock/Unlock itself)
+		// lies between recv[.mu].Lock()/RLock() and the matching Unlock (or a deferred one), writes under
+		// the exclusive lock only.  A call of such a method on a package-level variable is a guarded access.
+		selfLocking := map[string]bool{}
+		notSelfLocking := map[string]bool{}
+		for _, f := range files {
+			for _, d := range f.Decls {
+				fn, ok := d.(*ast.FuncDecl)
+				if !ok || fn.Body == nil || fn.Recv == nil || len(fn.Recv.List) != 1 || len(fn.Recv.List[0].Names) != 1 {
+					continue
+				}
+				recv := fn.Recv.List[0].Names[0].Name
+				if methodSelfLocks(fn, recv) {
+					selfLocking[fn.Name.Name] = true
+				} else {
+					notSelfLocking[fn.Name.Name] = true
+				}
+			}
+		}
+		for m := range notSelfLocking {
+			delete(selfLocking, m)
 		}
 		// scan function bodies for writes to those names
 		for _, f := range files {
@@ -704,14 +791,19 @@ func globals(repo, out string) error {
 					}
 					return true
 				})
-				lockRecv := map[*ast.Ident]bool{} // identifiers used only as the receiver of Lock/Unlock
+				lockRecv := map[*ast.Ident]bool{}     // identifiers used only as the receiver of Lock/Unlock
+				selfLockRecv := map[*ast.Ident]bool{} // identifiers used as the receiver of a self-locking method
 				ast.Inspect(fn.Body, func(n ast.Node) bool {
 					if c, ok := n.(*ast.CallExpr); ok {
 						if s, ok := c.Fun.(*ast.SelectorExpr); ok {
 							switch s.Sel.Name {
 							case "Lock", "Unlock", "RLock", "RUnlock":
-								if id, ok := s.X.(*ast.Ident); ok {
+								if id := rootIdent(s.X); id != nil {
 									lockRecv[id] = true
+								}
+							default:
+								if id, ok := s.X.(*ast.Ident); ok && selfLocking[s.Sel.Name] {
+									selfLockRecv[id] = true
 								}
 							}
 						}
@@ -750,7 +842,9 @@ func globals(repo, out string) error {
 									switch sel.Sel.Name {
 									case "Lock", "Unlock", "RLock", "RUnlock", "Error", "String", "GoString", "Value":
 									default:
-										g.mutated = true
+										if !concurrencySafe[id.Name] || sel.Sel.Name == "Longest" {
+											g.mutated = true
+										}
 									}
 								}
 							}
@@ -759,7 +853,7 @@ func globals(repo, out string) error {
 						// any use of the variable other than as the receiver of its own Lock/Unlock
 						if g, ok := names[st.Name]; ok && !lockRecv[st] && (st.Obj == nil || pkgObjs[st.Obj]) {
 							g.accessCount++
-							if !guarded(st.Pos(), writes[st]) {
+							if !selfLockRecv[st] && !guarded(st.Pos(), writes[st]) {
 								g.unguardedAcc++
 							}
 						}
@@ -1064,4 +1158,116 @@ func ints(repo, out string) error {
 	list("narrowIntConversions", "explicit conversions of a non-literal to an integer type narrower than int", convs)
 	b.WriteString("end Tab.Generated\n")
 	return os.WriteFile(filepath.Join(out, "Ints.lean"), []byte(b.String()), 0o644)
+}
+
+// methodSelfLocks: see the comment at its use in globals.
+func methodSelfLocks(fn *ast.FuncDecl, recv string) bool {
+	type region struct {
+		from, to token.Pos
+		shared   bool
+	}
+	var rootIdent func(e ast.Expr) *ast.Ident
+	rootIdent = func(e ast.Expr) *ast.Ident {
+		switch x := e.(type) {
+		case *ast.SelectorExpr:
+			return rootIdent(x.X)
+		case *ast.IndexExpr:
+			return rootIdent(x.X)
+		case *ast.StarExpr:
+			return rootIdent(x.X)
+		case *ast.ParenExpr:
+			return rootIdent(x.X)
+		case *ast.Ident:
+			return x
+		}
+		return nil
+	}
+	var regions, locks []region
+	deferred := map[*ast.CallExpr]bool{}
+	hasDeferUnlock := false
+	lockRecv := map[*ast.Ident]bool{}
+	ast.Inspect(fn.Body, func(n ast.Node) bool {
+		switch st := n.(type) {
+		case *ast.DeferStmt:
+			deferred[st.Call] = true
+			if s, ok := st.Call.Fun.(*ast.SelectorExpr); ok && (s.Sel.Name == "Unlock" || s.Sel.Name == "RUnlock") {
+				if id := rootIdent(s.X); id != nil && id.Name == recv {
+					hasDeferUnlock = true
+					lockRecv[id] = true
+				}
+			}
+		case *ast.CallExpr:
+			if deferred[st] {
+				return true
+			}
+			if s, ok := st.Fun.(*ast.SelectorExpr); ok {
+				if id := rootIdent(s.X); id != nil && id.Name == recv {
+					switch s.Sel.Name {
+					case "Lock", "RLock":
+						lockRecv[id] = true
+						locks = append(locks, region{from: st.Pos(), shared: s.Sel.Name == "RLock"})
+					case "Unlock", "RUnlock":
+						lockRecv[id] = true
+						if len(locks) > 0 {
+							l := locks[len(locks)-1]
+							regions = append(regions, region{l.from, st.Pos(), l.shared})
+							locks = locks[:len(locks)-1]
+						}
+					}
+				}
+			}
+		}
+		return true
+	})
+	if hasDeferUnlock {
+		for _, l := range locks {
+			regions = append(regions, region{l.from, fn.Body.End(), l.shared})
+		}
+	}
+	if len(regions) == 0 {
+		return false
+	}
+	writes := map[*ast.Ident]bool{}
+	ast.Inspect(fn.Body, func(n ast.Node) bool {
+		switch st := n.(type) {
+		case *ast.AssignStmt:
+			for _, l := range st.Lhs {
+				if _, plain := l.(*ast.Ident); plain {
+					continue // assigning to a local of the same name is not a write through the receiver
+				}
+				if id := rootIdent(l); id != nil {
+					writes[id] = true
+				}
+			}
+		case *ast.IncDecStmt:
+			if id := rootIdent(st.X); id != nil {
+				writes[id] = true
+			}
+		case *ast.CallExpr:
+			if id, ok := st.Fun.(*ast.Ident); ok && id.Name == "delete" && len(st.Args) > 0 {
+				if r := rootIdent(st.Args[0]); r != nil {
+					writes[r] = true
+				}
+			}
+		}
+		return true
+	})
+	ok := true
+	ast.Inspect(fn.Body, func(n ast.Node) bool {
+		id, isId := n.(*ast.Ident)
+		if !isId || id.Name != recv || lockRecv[id] {
+			return true
+		}
+		in := false
+		for _, r := range regions {
+			if r.from < id.Pos() && id.Pos() < r.to && !(writes[id] && r.shared) {
+				in = true
+			}
+		}
+		if !in {
+			ok = false
+		}
+		return true
+	})
+	return ok
 }
